@@ -48,13 +48,13 @@ def is_zero_index(index):
     return sum(int(i) for i in index) % 3 == 2
 
 
-def make_series(shape, ninf, log=None):
+def make_series(shape, ninf, log=None, prefix=""):
     from pymablock.series import BlockSeries, zero
 
     def ev(*index):
         if log is not None:
             log.append(tuple(int(i) for i in index))
-        return zero if is_zero_index(index) else token(index)
+        return zero if is_zero_index(index) else prefix + token(index)
 
     return BlockSeries(eval=ev, shape=shape, n_infinite=ninf, name="S")
 
@@ -200,6 +200,14 @@ def run_case(case):
                         want = sub[second]
                     except IndexError:
                         continue
+                    # another series of the same shape (different element values) is viewed in the same way first:
+                    # views and elements of distinct series must not get mixed up
+                    decoy = make_series(shape, ninf, prefix="other-")
+                    try:
+                        dview = decoy[fin]
+                        dview[second if len(second) != 1 else second[0]]
+                    except Exception:  # noqa: BLE001
+                        pass
                     try:
                         view = s[fin]
                         if view.shape != vshape:
